@@ -13,6 +13,7 @@ PROPERTY = 'C01'
 RULE = ('Typed random STL grammar (arithmetic incl. unary minus/ln/log, six comparisons, Boolean, rise/fall, '
         'prev/next/s_prev/s_next, bounded+unbounded past and future, unless) x random traces of length 1..12 '
         '(thorough 24) with dyadic values; lanes main/short/deep/bigbound/timecol and long (few large cases: 16-48 samples, bounds up to 20, up to five variables); one trace in five uses very few distinct values (zeros, ties, plateaus). Oracle: independent quadratic '
+        'lane reevaluate: one specification object evaluated repeatedly on one data-set dictionary that the caller edits in place between the calls (a value changes, a sample is appended or dropped); '
         'reference R-dt; result must be n [time,value] pairs with the given time column. Non-trivial = formula has '
         '>=1 temporal/event operator and the reference result is not constant over the trace, or n == 1; '
         'distinct = distinct (formula text, trace, time column) digests.')
@@ -183,7 +184,104 @@ def strat_verylong_(draw, tier):
     return {'formula': f, 'vars': vs, 'trace': tr}
 
 
+@st.composite
+def strat_reevaluate_(draw, tier):
+    """One specification object evaluated several times on the same data-set dictionary, which the caller edits in place
+    between the calls: a value changes, a sample is appended to every column (a growing log), the last sample is dropped."""
+    c = draw(dt_cases(_profile(tier, max_depth=3), max_n=8, min_n=2))
+    n = len(next(iter(c['trace'].values())))
+    edits = []
+    for _ in range(draw(st.integers(1, 4))):
+        k = draw(st.sampled_from(['set', 'set', 'append', 'drop']))
+        if k == 'set':
+            edits.append(['set', draw(st.sampled_from(c['vars'])), draw(st.integers(0, n - 1)), draw(F.values())])
+        elif k == 'append':
+            edits.append(['append', {v: draw(F.values()) for v in c['vars']}])
+            n += 1
+        elif n > 1:
+            edits.append(['drop'])
+            n -= 1
+    c['edits'] = edits
+    return c
+
+
+def check_reevaluate(case):
+    from ..monitors import build, exc_outcome
+    f = from_json(case['formula'])
+    vs = list(case['vars'])
+    labels = feature_labels(f) + ['reevaluate']
+    tr = {v: [float(x) for x in case['trace'][v]] for v in vs}
+    text = 'out = ' + show(f)
+    try:
+        spec = build('dt_off', text, vs)
+    except Exception as e:  # noqa
+        return DISCARD('build-raises(C14/C17):' + type(e).__name__, labels)
+    ds = {'time': [float(i) for i in range(len(tr[vs[0]]))]}
+    for v in vs:
+        ds[v] = list(tr[v])                      # the caller's lists: kept and edited in place
+    hist = []
+    changed = 0
+    for step in range(len(case['edits']) + 1):
+        if step > 0:
+            e = case['edits'][step - 1]
+            n = len(ds['time'])
+            if e[0] == 'set':
+                if e[2] >= n:
+                    continue
+                changed += ds[e[1]][e[2]] != float(e[3])
+                ds[e[1]][e[2]] = float(e[3])
+            elif e[0] == 'append':
+                ds['time'].append(float(n))
+                for v in vs:
+                    ds[v].append(float(e[1][v]))
+                changed += 1
+            elif n > 1:
+                ds['time'].pop()
+                for v in vs:
+                    ds[v].pop()
+                changed += 1
+        n = len(ds['time'])
+        cur = {v: list(ds[v]) for v in vs}
+        try:
+            ref = dt(f, cur, n)
+        except Undefined:
+            return DISCARD('undefined', labels)
+        try:
+            out = spec.evaluate(ds)
+        except Exception as e:  # noqa
+            o = exc_outcome(e)
+            if step == 0:
+                return DISCARD('first-evaluation-raises(main lanes)', labels)
+            return FAIL('reevaluate-raises:' + o[1], 'spec: %s\ndata sets so far: %s\nevaluation %d on %s raised %s: %s at %s' % (text, hist, step, cur, o[1], o[3], o[4]), labels)
+        hist.append(cur)
+        if {v: ds[v] for v in vs} != cur or ds['time'] != [float(i) for i in range(n)]:
+            return DISCARD('caller-data-modified(C11)', labels)
+        ok = isinstance(out, list) and len(out) == n and all(same(p[1], r, needs_tolerance(f)) for p, r in zip(out, ref))
+        if not ok:
+            if step == 0:
+                return DISCARD('first-evaluation-differs(main lanes)', labels)
+            return FAIL('reevaluate-differs', 'spec: %s\ndata sets of the evaluations (one dictionary, edited in place): %s\nevaluation %d returned %s\nreference: %s' % (
+                text, hist, step, out, fmt_vals(ref)), labels)
+    return PASS(changed >= 1 and F.n_temporal(f) >= 1, labels)
+
+
+def cand_reevaluate(case):
+    if len(case['edits']) > 1:
+        for i in range(len(case['edits'])):
+            yield dict(case, edits=case['edits'][:i] + case['edits'][i + 1:])
+    n0 = len(next(iter(case['trace'].values())))
+    for c in std_candidates({k: case[k] for k in ('formula', 'vars', 'trace')}):
+        if len(next(iter(c['trace'].values()))) != n0:
+            continue
+        c = dict(c)
+        c['edits'] = [e for e in case['edits'] if e[0] != 'set' or e[1] in c['vars']]
+        c['edits'] = [(['append', {v: e[1][v] for v in c['vars']}] if e[0] == 'append' else e) for e in c['edits']]
+        if c['edits']:
+            yield c
+
+
 LANES = [
+    Lane('reevaluate', lambda tier: strat_reevaluate_(tier), check_reevaluate, 1000, 15000, cand_reevaluate),
     Lane('verylong', lambda tier: strat_verylong_(tier), check, 150, 2000, std_candidates),
     Lane('floats', strat_floats, check, 1000, 15000, std_candidates),
     Lane('long', strat_long, check, 300, 5000, std_candidates),
